@@ -43,11 +43,12 @@ def one_input(data: bytes):
     route = ("ccsds", "pgen")[fdp.ConsumeIntInRange(0, 1)]
     nsched = fdp.ConsumeIntInRange(0, 6)
     sched = [fdp.ConsumeIntInRange(1, 9) for _ in range(nsched)]
+    progress = fdp.ConsumeIntInRange(0, 3) == 0
     stream = fdp.ConsumeBytes(fdp.remaining_bytes())
-    items, ended, exc = c10.drive(stream, k, kind, rs, route, sched)
+    items, ended, exc = c10.drive(stream, k, kind, rs, route, sched, progress)
     r = c10.judge(stream, k, items, ended, exc)
     if r:
-        case = {"data": stream.hex(), "k": k, "rs": [rs], "sched": sched, "fixed": [kind, route]}
+        case = {"data": stream.hex(), "k": k, "rs": [rs], "sched": sched, "fixed": [kind, route], "progress": progress}
         with open(os.path.join(OUT, "violation.json"), "w") as f:
             json.dump({"kind": r[0], "detail": f"{kind} source, read size {rs}, k={k}, route {route}, input "
                                                f"{stream[:40].hex()} ({len(stream)} bytes): {r[1]}", "case": case}, f)
